@@ -297,3 +297,25 @@ func H_C02_null_binary() {
 	verif.Assert(verif.Eq(got, want), "projection")
 	verif.Reach("end")
 }
+
+// H_C02_literals: numeric literals in every decimal spelling (leading
+// zeros, exponents, bare fraction, integers beyond int64) evaluate to their
+// decimal value, alone and inside arithmetic.
+func H_C02_literals() {
+	texts := []string{"010", "0100", "007", "00", "1e3", "1E3", "0.50", ".5", "5.", "1.5e-1", "0e0", "9007199254740993", "18446744073709551616", "123456789012345678901234567890", "0.1", "100", "08", "019"}
+	vals := []float64{10, 100, 7, 0, 1000, 1000, 0.5, 0.5, 5, 0.15, 0, 9007199254740992, 18446744073709551616, 123456789012345678901234567890, 0.1, 100, 8, 19}
+	li := verif.Choose("literal", len(texts))
+	neg := verif.Choose("negated", 2)
+	a := verif.F64("a")
+	verif.Assume(a == a)
+	lit, v := texts[li], vals[li]
+	if neg == 1 {
+		lit, v = "-"+lit, -1*v
+	}
+	got, ok := runQuery(Map{"t": []any{Map{"a": a}}}, "SELECT "+lit+" AS k, a + "+lit+" AS s, a * "+lit+" AS p FROM t")
+	if !ok {
+		return
+	}
+	verif.Assert(verif.Eq(got, []any{Map{"k": v, "s": a + v, "p": a * v}}), "literal-value")
+	verif.Reach("end")
+}
